@@ -270,15 +270,16 @@ Definition check (c : sx) : verdict :=
            SList [dec_t; unzip_t; SList rs]] =>
       match sx_Ns chunks, sx_table dec_t, sx_otable unzip_t with
       | Some sizes, Some td, Some tu =>
+          (* the bounds / no-panic sentences first, then: a frame whose body does not match its
+             flags must be reported as an error *)
           vjoin
-            (* a frame whose body does not match its flags must be reported as an error *)
+            (check_singles (fun_of_table td) (fun_of_otable tu) fmt (negb (Z.eqb cipher 0))
+                           (lenN data) (chunk sizes data) rs)
             (check_that (Z.eqb expect 0 ||
                          match rs with
                          | SList (SInt _ :: SInt kind :: _) :: _ => negb (Z.eqb kind 0)
                          | _ => false
                          end) (VPropFail 7))
-            (check_singles (fun_of_table td) (fun_of_otable tu) fmt (negb (Z.eqb cipher 0))
-                           (lenN data) (chunk sizes data) rs)
       | _, _, _ => VBad
       end
   | SList [SList [SInt 11%Z; SInt fmt; SInt cipher; SInt _; SBytes frame; SInt mode; SInt lo; SInt hi];
